@@ -170,7 +170,7 @@ func HarnessC11Unary() {
 
 // HarnessC11ServerStream: streaming responses: 0 or 1 message, then nil or an error.
 //
-//verif:harness property=C11 stubs=json,wire shard=proto:3
+//verif:harness property=C11 stubs=json,wire shard=proto:3 cross=z3-new
 func HarnessC11ServerStream() {
 	proto := nondetChoice("proto", 3)
 	sent := nondetChoice("sent", 2)
